@@ -4,7 +4,7 @@
    decoder model, with the bitwise CRC-16/ARC of Spec/CrcSpec.v. *)
 From Coq Require Import NArith ZArith List Bool String.
 From FitV Require Import Model.Values Model.Bytes Model.Header Model.Route Model.Encode
-  Spec.CrcSpec Spec.Grammar Spec.RoundTrip Proofs.EncodeProofs Proofs.C05Grammar Proofs.C05Wire Proofs.C07Reencode Proofs.EncExamples.
+  Spec.CrcSpec Spec.Grammar Spec.RoundTrip Proofs.EncodeProofs Proofs.C05Grammar Proofs.C05Wire Proofs.C05Complete Proofs.C07Reencode Proofs.EncExamples.
 Import ListNotations.
 Local Open Scope N_scope.
 
@@ -50,8 +50,7 @@ Proof. exact profile_msgs_ok. Qed.
    integers by value in the record's byte order, strings with their terminator and zero padding,
    arrays element by element with invalid padding up to the profile length, times as seconds since
    the FIT epoch when whole and in range, local times by wall clock, coordinates as semicircles).
-   What is still decided per explored File only: that no set field is omitted from a record and no
-   field number occurs twice (absent_unset / nodup_n of record_matches) *)
+   Superseded by C05_encode_wire_ok below (kept: it exposes the per-field clause separately) *)
 Theorem C05_encode_wire_fields : forall f be bs f',
   wf_file f = true -> wf_header (f_header f) = true -> file_sane f = true ->
   encode f be = EOk (bs, f') -> N.of_nat (List.length bs) < 4294967296 ->
@@ -59,6 +58,16 @@ Theorem C05_encode_wire_fields : forall f be bs f',
     Forall2 (fun m r => gr_gmn r = m_num m /\ gr_be r = be /\ fields_match m r = true) (file_msgs f) recs.
 Proof. exact encode_wire_fields. Qed.
 Print Assumptions C05_encode_wire_fields.
+
+(* the complete statement of DESIGN.md: the recogniser accepts and wire_ok holds -- per message: message number,
+   no field number twice in a record, every field value, and every struct field the record does not carry is
+   unset (no set field is omitted) *)
+Theorem C05_encode_wire_ok : forall f be bs f',
+  wf_file f = true -> wf_header (f_header f) = true -> file_sane f = true ->
+  encode f be = EOk (bs, f') -> N.of_nat (List.length bs) < 4294967296 ->
+  exists recs, grammar bs = Some recs /\ wire_ok f recs = true.
+Proof. exact encode_wire_ok. Qed.
+Print Assumptions C05_encode_wire_ok.
 
 (* FULL STATEMENT (refuted without file_sane): an array of 256 elements is written as all-invalid,
    because writeField computes byte(value.Len()); candidate finding, see docs/notes-C05C06C07.md *)
